@@ -356,6 +356,30 @@ func genWireIn(r *Rng, tier string, stat func(string)) []string {
 			add(cfg, "default", r.PickS([]string{"eof", "fail"}), r.Pick([]int{0, 1, 3}), ops, s.out[:cut], []string{"cut-sweep"})
 		}
 	}
+	// C04 / C03: the transport ends in the HEADER region of frames with every length encoding (7-bit, 16-bit, 64-bit), in every
+	// order (a 16-bit length first on a fresh connection; after a 64-bit one; after a multiple of 256), every offset from the
+	// frame's first byte to two bytes into its payload, both endings, both roles
+	for _, role := range []string{"client", "server"} {
+		for _, lens := range [][]int{{200}, {126, 300}, {70000, 300}, {512, 200}, {65535, 126}, {65536, 200}, {300, 70000}, {125, 127, 256}} {
+			cfg := fmt.Sprintf("role=%s co=none mode=takeover thr=0", role)
+			s := &sender{r: r, masked: role == "server"}
+			var starts []int
+			var ops []string
+			for i, n := range lens {
+				starts = append(starts, len(s.out))
+				s.frame(rawFrame{Fin: true, Opcode: byte(1 + i%2), Payload: GenBytes("text", n, n+i)})
+				ops = append(ops, "R", "A")
+			}
+			ops = append(ops, "R")
+			for _, st := range starts {
+				for cut := st; cut <= st+16 && cut <= len(s.out); cut++ {
+					for _, end := range []string{"eof", "fail"} {
+						add(cfg, "100000", end, 0, ops, s.out[:cut], []string{"header-cut-sweep"})
+					}
+				}
+			}
+		}
+	}
 	return out
 }
 
